@@ -1,5 +1,5 @@
 """Names available to contract files."""
-from .types import Int, Real, Bool, Str, NoneT, DT, TD, Date, Opt, Ref, List, Dict, Tuple, Fn  # noqa
+from .types import Int, Real, Bool, Str, NoneT, DT, TD, Date, Opt, Ref, List, Dict, Tuple, Fn, Struct  # noqa
 from .engine import contract, REG, Contract  # noqa
 
 
